@@ -3,6 +3,7 @@ package main
 import (
 	"fmt"
 	"os"
+	"runtime/pprof"
 	"strings"
 	"time"
 )
@@ -14,6 +15,16 @@ func main() {
 	os.Setenv("GOFLAGS", "-mod=mod")
 	os.Setenv("GOPROXY", "off")
 	os.Setenv("GOSUMDB", "off")
+	if pf := os.Getenv("GOVC_PROF"); pf != "" {
+		if f, err := os.Create(pf); err == nil {
+			pprof.StartCPUProfile(f)
+			go func() {
+				time.Sleep(60 * time.Second)
+				pprof.StopCPUProfile()
+				f.Close()
+			}()
+		}
+	}
 	if len(os.Args) < 2 {
 		fmt.Fprintln(os.Stderr, "usage: govc dump <pkgs,comma> <funckey> | check <prop> <tier> | replay <file>")
 		os.Exit(2)
